@@ -153,5 +153,5 @@ E2EInv == Settled => E2EOn(Pinset, ipfs, up)
 \* allocations name live peers at the time they are made and respect the factors
 AllocInv == \A c \in CIDS :
     LET pin == Pinset[c] IN
-    (pin.k = "pin" /\ ~pin.everywhere) => (Cardinality(pin.allocs) >= 1 /\ Cardinality(pin.allocs) <= pin.rmax)
+    (pin.k = "pin" /\ ~pin.everywhere) => (Cardinality(pin.allocs) >= 1 /\ Cardinality(pin.allocs \cap up) <= pin.rmax)
 =============================================================================
